@@ -38,6 +38,7 @@ type hist struct {
 	log       []string
 	id        string
 	mu        sync.Mutex
+	amu       sync.Mutex
 	// asynchrony of the real node: block-complete events reach the validator/pool through an
 	// actor mailbox (late), and a transaction verified at height h may enter the pool after
 	// later blocks were committed
@@ -92,7 +93,7 @@ func (h *hist) submit(tx *types.Transaction, reverify bool) errors.ErrCode {
 		nonce = acct.Nonce
 	}
 	entry := &tc.VerifiedTx{Tx: tx, VerifiedHeight: h.c.Ledger.GetCurrentBlockHeight(), Nonce: nonce}
-	if !reverify && h.async != nil && h.async.Chance(20) {
+	if !reverify && h.async != nil && h.asyncChance(20) {
 		h.mu.Lock()
 		h.inflight = append(h.inflight, entry)
 		h.mu.Unlock()
@@ -132,6 +133,14 @@ func (h *hist) insert(entry *tc.VerifiedTx) errors.ErrCode {
 	return code
 }
 
+// asyncChance draws from the history's asynchrony stream; submissions may run on several goroutines
+// (thorough tier), so the stream is guarded.
+func (h *hist) asyncChance(pct int) bool {
+	h.amu.Lock()
+	defer h.amu.Unlock()
+	return h.async.Chance(pct)
+}
+
 // forgetCompleted mirrors what the pool does when a block completes: every pooled entry of a sender
 // up to the committed nonce is dropped, so a later arrival with such a nonce replaces nothing.
 func (h *hist) forgetCompleted(txs []*types.Transaction) {
@@ -151,7 +160,7 @@ func (h *hist) forgetCompleted(txs []*types.Transaction) {
 
 // deliver hands late block-complete events and in-flight verified transactions over.
 func (h *hist) deliver(all bool) {
-	for len(h.lateBlocks) > 0 && (all || h.async.Chance(50)) {
+	for len(h.lateBlocks) > 0 && (all || h.asyncChance(50)) {
 		b := h.lateBlocks[0]
 		h.lateBlocks = h.lateBlocks[1:]
 		h.iv.AddBlock(b)
@@ -164,7 +173,7 @@ func (h *hist) deliver(all bool) {
 	h.inflight = nil
 	h.mu.Unlock()
 	for _, e := range fl {
-		if all || h.async.Chance(60) {
+		if all || h.asyncChance(60) {
 			h.insert(e)
 		} else {
 			h.mu.Lock()
@@ -275,7 +284,7 @@ func (h *hist) proposeAndCommit() bool {
 		}
 	}
 	// what the node does on TOPIC_SAVE_BLOCK_COMPLETE (possibly late: it travels through actor mailboxes)
-	if h.async != nil && h.async.Chance(35) {
+	if h.async != nil && h.asyncChance(35) {
 		h.lateBlocks = append(h.lateBlocks, b)
 		h.r.Count("block_complete_event_delayed")
 	} else {
